@@ -1,15 +1,11 @@
-import Marwood.Lemmas.ListExtSim
-import Marwood.Lemmas.ListExtGood
-import Marwood.Lemmas.ListExtCode
-import Marwood.Lemmas.ListExtProc
-import Marwood.Lemmas.ListExtDemo
-import Marwood.Lemmas.ListExtCont
-import Marwood.Proofs.C03
-import Marwood.Proofs.C04
-import Marwood.Proofs.C07
-import Marwood.Proofs.C12
-import Marwood.Proofs.C13
-import Marwood.Proofs.C18
+import Marwood.Lemmas.ListExtC03
+import Marwood.Lemmas.ListExtC13
+import Marwood.Lemmas.ListExtC07
+import Marwood.Lemmas.ListExtC04
+import Marwood.Lemmas.ListExtC05
+import Marwood.Lemmas.ListExtC18
+import Marwood.Lemmas.ListExtC12
+
 /-!
 # The machine-level property theorems at REAL builtins: no `Ext…` hypothesis left
 
@@ -26,10 +22,7 @@ string? symbol? number? vector? procedure?` modelled over the concrete heap as t
 | `ExtCodeLawsG V` (`ExtCodeLawsV`, `ExtCodeLaws`) | `listExtWith_codeLawsG` | Lemmas/ListExtCode.lean |
 | `ExtCodePlain` | `listExtWith_codePlain` | Lemmas/ListExtCode.lean |
 | `ExtAllocOnly` | `listExtWith_allocOnly` | Lemmas/ListExtCode.lean |
-| `ExtProcL` (= `ExtProc` + the premise `LF h`; `ExtProc` itself is FALSE of `cons`: `not_extProc_listExt`) | `listExtWith_procL` | Lemmas/ListExtProc.lean |
-
-C05's run-level theorems (`invoke_run_continues_machine`, `invoke_run_same_result_machine`) are re-proved from `ExtProcL`
-and instantiated in `Lemmas/ListExtCont.lean` (`Marwood.Proofs.C05.invoke_run_same_result_listExt`).
+| `ExtProc` (with the premise `LF h`, added for this instance: without it the law is false of `cons`, `extProc_needs_lf`) | `listExtWith_proc` | Lemmas/ListExtProc.lean |
 
 What remains in the statements: `VmOk` and `PInv` of the INITIAL state and the physical bound `SizeBounded`. The
 statements are about programs that really cons and mutate; `eqTag` (payload equality of two number / two string
@@ -37,265 +30,3 @@ tags) is arbitrary. The demo (`Lemmas/ListExtDemo.lean`) discharges every hypoth
 `cons`, `set-car!` and `car`.
 -/
 
-/-! ## C03 -/
-
-namespace Marwood.Proofs.C03
-open Marwood Marwood.Vm Marwood.Vm.Concrete Marwood.Lemmas.Sim Marwood.Lemmas.Good Marwood.Proofs.C13
-
-section
-variable (eqTag : String → String → Bool)
-
-/-- the callee guard along every run of the machine with the real builtins -/
-theorem calleeOkAlong_listExt (force : Bool) {s0 : St CHeap}
-    (h0 : VmOk (listExtWith eqTag) (listExtWith_codeLawsV eqTag) s0) (p0 : PInv s0)
-    (sb : SizeBounded (machine (listExtWith eqTag) force) s0) :
-    CalleeOkAlong (machine (listExtWith eqTag) force) s0 :=
-  calleeOkAlong_of_vmOk_L force (listExtWith_laws eqTag) (listExtWith_good eqTag) (listExtWith_procL eqTag) h0 p0 sb
-
-/-- **T03.5 at the real builtins**: on the concrete machine whose generic builtins are the table of
-    `Vm/ListExt.lean`, every schedule of collections at instruction boundaries and the collection-free run end with
-    the same status in `Sim`-related states. No hypothesis about the builtins. -/
-theorem gc_unobservable_listExt (force : Bool) (sched : Nat → Bool) (n : Nat) (s0 : St CHeap)
-    (h0 : VmOk (listExtWith eqTag) (listExtWith_codeLawsV eqTag) s0) (p0 : PInv s0)
-    (sb : SizeBounded (machine (listExtWith eqTag) force) s0) :
-    ResRel (Lemmas.Sim.R (machine (listExtWith eqTag) force))
-      (runSched (machine (listExtWith eqTag) force) sched n 0 s0) (pureN (machine (listExtWith eqTag) force) n s0) :=
-  gc_unobservable_wf _ force (listExtWith_laws eqTag) (listExtWith_good eqTag) (listExtWith_codeLawsV eqTag) sched n s0
-    h0 sb (calleeOkAlong_listExt eqTag force h0 p0 sb)
-
-/-- … and the value is the same -/
-theorem gc_unobservable_value_listExt (force : Bool) (sched : Nat → Bool) (n : Nat) (s0 t' : St CHeap)
-    (h0 : VmOk (listExtWith eqTag) (listExtWith_codeLawsV eqTag) s0) (p0 : PInv s0)
-    (sb : SizeBounded (machine (listExtWith eqTag) force) s0)
-    (hk : pureN (machine (listExtWith eqTag) force) n s0 = .done t') :
-    ∃ s', runSched (machine (listExtWith eqTag) force) sched n 0 s0 = .done s' ∧
-      ∀ fuel, resultObs fuel s' = resultObs fuel t' :=
-  gc_unobservable_value_wf _ force (listExtWith_laws eqTag) (listExtWith_good eqTag) (listExtWith_codeLawsV eqTag) sched
-    n s0 t' h0 sb (calleeOkAlong_listExt eqTag force h0 p0 sb) hk
-
-/-- `run_one` (any of the 16 opcodes, any builtin of the table) and `run_gc` preserve the bundled invariant
-    `VmOk ∧ PInv` — the heap invariant of T03.3 (`WFHeap`, allocated roots) included -/
-theorem run_one_preserves_vmOkP_listExt (s s' : St CHeap) (b : Bool)
-    (h : VmOkP (listExtWith eqTag) (listExtWith_codeLawsV eqTag) s) (sm : Small s.heap)
-    (hs : step (concreteOps (listExtWith eqTag)) s = .ok (s', b)) (sm' : Small s'.heap) :
-    VmOkP (listExtWith eqTag) (listExtWith_codeLawsV eqTag) s' ∧ Heap.WFHeap true (toHeap s'.heap) ∧
-      Heap.RootsOk (toHeap s'.heap) ((rootsOf s').refs true) :=
-  let h' := vmOkP_step_L (listExtWith_laws eqTag) (listExtWith_good eqTag) (listExtWith_procL eqTag) h sm hs sm'
-  ⟨h', h'.1.1.hg.wf, h'.1.1.roots⟩
-
-end
-
-/-! ### non-vacuity: a program that runs `cons`, `set-car!` and `car` -/
-
-open Marwood.Lemmas.Good.LDemo in
-/-- every hypothesis holds of the demo state -/
-example : VmOk listExt listExt_codeLawsV sDemo ∧ PInv sDemo ∧ SizeBounded (machine listExt false) sDemo :=
-  ⟨sDemo_vmOk _ _, sDemo_pinv, sDemo_sizeBounded⟩
-
-open Marwood.Lemmas.Good.LDemo in
-/-- `(define p (cons 1 2)) (set-car! p 3) (car p)` returns `3` under EVERY schedule of (utilisation-tested)
-    collections, through the theorem -/
-theorem demo_every_schedule (sched : Nat → Bool) :
-    ∃ s', runSched (machine listExt false) sched 17 0 sDemo = .done s' ∧
-      resultObs 5 s' = .atom (.opaque "n3") := by
-  obtain ⟨s', h1, h2⟩ := gc_unobservable_value_listExt _ false sched 17 sDemo (st 17) (sDemo_vmOk _ _) sDemo_pinv
-    sDemo_sizeBounded (pure_done false)
-  exact ⟨s', h1, by rw [h2 5]; exact st17_result⟩
-
-open Marwood.Lemmas.Good.LDemo in
-/-- … and under two schedules of FORCED collections (mark and sweep before every instruction; before every third
-    instruction), by evaluation of the model; the first run really reclaims the cell of the overwritten `1` -/
-theorem demo_forced_schedules :
-    (∃ s', runSched (machine listExt true) (fun _ => true) 17 0 sDemo = .done s' ∧
-      resultObs 5 s' = .atom (.opaque "n3")) ∧
-    (∃ s', runSched (machine listExt true) (fun i => i % 3 == 1) 17 0 sDemo = .done s' ∧
-      resultObs 5 s' = .atom (.opaque "n3")) :=
-  ⟨doneTag_some sched_all, doneTag_some sched_third⟩
-
-end Marwood.Proofs.C03
-
-/-! ## C13 -/
-
-namespace Marwood.Proofs.C13
-open Marwood Marwood.Vm Marwood.Vm.Concrete Marwood.Lemmas.Sim Marwood.Lemmas.Good Marwood.Proofs.C03
-
-section
-variable (eqTag : String → String → Bool)
-
-/-- **T13.3 at the real builtins**: if the uninterrupted evaluation reaches HALT after `k` instructions, then for
-    every sequence of positive budgets whose sum reaches `k` the sliced evaluation (budget-stop collections and the
-    collections every 8192 cycles on the real collector model) reaches HALT too, and the datum read out of `acc` is
-    the same. No hypothesis about the builtins. -/
-theorem sliced_value_eq_uninterrupted_listExt (force : Bool) (s0 : St CHeap)
-    (h0 : VmOk (listExtWith eqTag) (listExtWith_codeLawsV eqTag) s0) (p0 : PInv s0)
-    (sb : SizeBounded (machine (listExtWith eqTag) force) s0) (k : Nat) (t' : St CHeap)
-    (hk : pureN (machine (listExtWith eqTag) force) k s0 = .done t')
-    (bs : List Nat) (hpos : ∀ b ∈ bs, 1 ≤ b) (hsum : k ≤ bs.sum) (fuel : Nat) :
-    ∃ s1 s2, run (machine (listExtWith eqTag) force) k s0 = .done s1 ∧
-      runSliced (machine (listExtWith eqTag) force) bs s0 = .done s2 ∧ resultObs fuel s1 = resultObs fuel s2 :=
-  sliced_value_eq_uninterrupted_wf _ force (listExtWith_laws eqTag) (listExtWith_good eqTag)
-    (listExtWith_codeLawsV eqTag) s0 h0 sb (calleeOkAlong_listExt eqTag force h0 p0 sb) k t' hk bs hpos hsum fuel
-
-/-- … and for an evaluation that fails: the same failure, `Sim`-related states -/
-theorem sliced_error_eq_uninterrupted_listExt (force : Bool) (s0 : St CHeap)
-    (h0 : VmOk (listExtWith eqTag) (listExtWith_codeLawsV eqTag) s0) (p0 : PInv s0)
-    (sb : SizeBounded (machine (listExtWith eqTag) force) s0) (k : Nat) (e : Fault) (t' : St CHeap)
-    (hk : pureN (machine (listExtWith eqTag) force) k s0 = .error e t')
-    (bs : List Nat) (hpos : ∀ b ∈ bs, 1 ≤ b) (hsum : k ≤ bs.sum) :
-    ∃ s1 s2, run (machine (listExtWith eqTag) force) k s0 = .error e s1 ∧
-      runSliced (machine (listExtWith eqTag) force) bs s0 = .error e s2 ∧
-      R (machine (listExtWith eqTag) force) s1 t' ∧ R (machine (listExtWith eqTag) force) s2 t' :=
-  sliced_error_eq_uninterrupted_wf _ force (listExtWith_laws eqTag) (listExtWith_good eqTag)
-    (listExtWith_codeLawsV eqTag) s0 h0 sb (calleeOkAlong_listExt eqTag force h0 p0 sb) k e t' hk bs hpos hsum
-
-end
-
-open Marwood.Lemmas.Good.LDemo in
-/-- non-vacuity: every slicing of the 17-instruction evaluation that conses, mutates and reads returns `3` -/
-theorem demo_every_slicing (bs : List Nat) (hpos : ∀ b ∈ bs, 1 ≤ b) (hsum : 17 ≤ bs.sum) :
-    ∃ s1 s2, run (machine listExt false) 17 sDemo = .done s1 ∧ runSliced (machine listExt false) bs sDemo = .done s2 ∧
-      resultObs 5 s1 = resultObs 5 s2 :=
-  sliced_value_eq_uninterrupted_listExt _ false sDemo (sDemo_vmOk _ _) sDemo_pinv sDemo_sizeBounded 17 (st 17)
-    (pure_done false) bs hpos hsum 5
-
-end Marwood.Proofs.C13
-
-/-! ## C07 -/
-
-namespace Marwood.Proofs.C07
-open Marwood Marwood.Vm Marwood.Vm.Concrete Marwood.Lemmas.Sim Marwood.Lemmas.Good Marwood.Proofs.C13
-  Marwood.Proofs.C03
-
-/-- **T07.4 at the real builtins**: a failed evaluation (an error raised by `car` of a non-pair, say) leaves a VM
-    that is `Sim`-equivalent to its error-reset twin, and every later evaluation on both gives the same value /
-    the same failure. Hypotheses: the bundled invariant of the initial states, the laws of the COMPILER inside
-    `prepare_eval` (`CompLaws`, `CompGood`: not part of `ExtOps`), the size bound. -/
-theorem failed_eval_equivalent_later_listExt (eqTag : String → String → Bool) (force : Bool)
-    (comp : CHeap → VCell → Outcome (CHeap × VCell)) (cl : CompLaws comp) (cg : CompGood comp)
-    (count : Option Nat) (fuel : Nat) (s : St CHeap) (f : Fault) (s1 : St CHeap)
-    (hfail : runEval (concreteOps (listExtWith eqTag)) (cgc force) count fuel s = .failed f s1)
-    (h0 : VmOk (listExtWith eqTag) (listExtWith_codeLawsV eqTag) s) (p0 : PInv s)
-    (sb : SizeBounded (machine (listExtWith eqTag) force) s) (sm1 : Small s1.heap) :
-    ∃ sf, runLoop (machine (listExtWith eqTag) force) count fuel 0 s = .error f sf ∧ s1 = cgc force (onError sf) ∧
-      (∃ ψ, Sim ψ s1 (onError sf)) ∧
-      ∀ (d : VCell) (s2 t2 : St CHeap), addrFree d = true →
-        prepareEval comp s1 d = .ok s2 → prepareEval comp (onError sf) d = .ok t2 →
-        SizeBounded (machine (listExtWith eqTag) force) s2 →
-        VmOk (listExtWith eqTag) (listExtWith_codeLawsV eqTag) s2 → PInv s2 →
-        SizeBounded (machine (listExtWith eqTag) force) t2 →
-        VmOk (listExtWith eqTag) (listExtWith_codeLawsV eqTag) t2 → PInv t2 →
-        ∀ k : Nat,
-          (∀ t', pureN (machine (listExtWith eqTag) force) k t2 = .done t' →
-            ∃ s' t'', run (machine (listExtWith eqTag) force) k s2 = .done s' ∧
-              run (machine (listExtWith eqTag) force) k t2 = .done t'' ∧
-              ∀ fl, resultObs fl s' = resultObs fl t'') ∧
-          (∀ e t', pureN (machine (listExtWith eqTag) force) k t2 = .error e t' →
-            ∃ s' t'', run (machine (listExtWith eqTag) force) k s2 = .error e s' ∧
-              run (machine (listExtWith eqTag) force) k t2 = .error e t'' ∧
-              (∃ ψ, Sim ψ s' t' ∧ All2 (AddrRel ψ) (traceFrames s') (traceFrames t')) ∧
-              (∃ ψ, Sim ψ t'' t' ∧ All2 (AddrRel ψ) (traceFrames t'') (traceFrames t'))) := by
-  obtain ⟨sf, h1, h2, h3, h4⟩ := failed_eval_equivalent_later_wf _ force (listExtWith_laws eqTag)
-    (listExtWith_good eqTag) (listExtWith_codeLawsV eqTag) comp cl cg count fuel s f s1 hfail h0 sb
-    (calleeOkAlong_listExt eqTag force h0 p0 sb) sm1
-  refine ⟨sf, h1, h2, h3, ?_⟩
-  intro d s2 t2 hd hs2 ht2 sb2 v2 p2 sbt vt pt k
-  exact h4 d s2 t2 hd hs2 ht2 sb2 v2 (calleeOkAlong_listExt eqTag force v2 p2 sb2) sbt vt
-    (calleeOkAlong_listExt eqTag force vt pt sbt) k
-
-end Marwood.Proofs.C07
-
-/-! ## C04 -/
-
-namespace Marwood.Proofs.C04
-open Marwood Marwood.Vm Marwood.Vm.Concrete Marwood.Vm.Verify Marwood.Lemmas.Sim Marwood.Lemmas.Good Marwood.Proofs.C03
-
-/-- **T04.5 at the real builtins**: loops of tail calls whose bodies call `cons`, `car`, `set-car!`, … run in the
-    same frame slot; `sp` at the loop head depends on the frame's base and the head's arity only -/
-theorem tail_loop_sp_listExt (eqTag : String → String → Bool) (force : Bool) {D : FDesc} {R : List FDesc} {n : Nat}
-    {s s' : St CHeap} (hl : TailLoop (concreteOps (listExtWith eqTag)) D.base n s s') (g : GoodI s)
-    (hw : WFS (concreteLawsV (listExtWith eqTag) (listExtWith_codeLawsV eqTag)) s (D :: R)) (p0 : PInv s)
-    (hh : AtHead s D.base) (sb : SizeBounded (machine (listExtWith eqTag) force) s) :
-    ∃ arity, s'.stack.cellAt (s'.bp + 1) = .argc arity ∧ s'.stack.sp = D.base + arity + 3 :=
-  tail_loop_sp_machine _ force (listExtWith_laws eqTag) (listExtWith_good eqTag) (listExtWith_codeLawsV eqTag) hl g hw hh
-    sb (calleeOkAlong_listExt eqTag force ⟨g, .inl ⟨_, hw⟩⟩ p0 sb)
-
-end Marwood.Proofs.C04
-
-/-! ## C18 and C12 -/
-
-namespace Marwood.Proofs.C18
-open Marwood Marwood.Heap Marwood.Vm Marwood.Vm.Concrete Marwood.Lemmas.Sim Marwood.Lemmas.Good Marwood.Proofs.C03
-  Marwood.Lemmas.MachineSym
-
-/-- the stack discipline along every run of the machine with the real builtins -/
-theorem stackDiscAlong_listExt (eqTag : String → String → Bool) (force : Bool) {s0 : St CHeap}
-    (h0 : VmOk (listExtWith eqTag) (listExtWith_codeLawsV eqTag) s0) (p0 : PInv s0)
-    (sb : SizeBounded (machine (listExtWith eqTag) force) s0) :
-    StackDiscAlong (machine (listExtWith eqTag) force) s0 :=
-  stackDiscAlong_of_wfs force (listExtWith_laws eqTag) (listExtWith_good eqTag) h0 sb
-    (calleeOkAlong_listExt eqTag force h0 p0 sb)
-
-/-- **T18.1/T18.2 at the real builtins**: in every state the machine reaches — through any number of `cons`,
-    `set-car!`, `eq?`, … calls and of collections — two symbol values sitting anywhere a first-class value can sit
-    are equal iff their names are equal -/
-theorem symbols_interned_listExt (eqTag : String → String → Bool) (force : Bool) {s0 : St CHeap}
-    (h0 : VmOk (listExtWith eqTag) (listExtWith_codeLawsV eqTag) s0) (p0 : PInv s0)
-    (sb : SizeBounded (machine (listExtWith eqTag) force) s0) {s : St CHeap}
-    (hr : Reaches (machine (listExtWith eqTag) force) s0 s)
-    {v w : Vm.VCell} {n m : Text} (lv : Loc s v) (lw : Loc s w) (sv : SymVal s.heap v n) (sw : SymVal s.heap w m) :
-    v = w ↔ n = m :=
-  symbols_interned_in_every_reachable_state force (listExtWith_laws eqTag) (listExtWith_good eqTag) h0.1 sb
-    (stackDiscAlong_listExt eqTag force h0 p0 sb) hr lv lw sv sw
-
-/-- production: every allocated symbol cell of the state after an instruction (a builtin call included) is THE
-    cell of its name -/
-theorem symbol_production_interns_listExt (eqTag : String → String → Bool) (force : Bool) {s0 : St CHeap}
-    (h0 : VmOk (listExtWith eqTag) (listExtWith_codeLawsV eqTag) s0) (p0 : PInv s0)
-    (sb : SizeBounded (machine (listExtWith eqTag) force) s0) {s s' : St CHeap}
-    (hr : Reaches (machine (listExtWith eqTag) force) s0 s)
-    (hs : (machine (listExtWith eqTag) force).step s = .next s' ∨ (machine (listExtWith eqTag) force).step s = .halt s')
-    {p : Nat} {n : Text} (hc : SymCell s'.heap p n) (hn : (toHeap s'.heap).NonFree p) :
-    symLookup s'.heap n = some p ∧ ∀ q, SymCell s'.heap q n → (toHeap s'.heap).NonFree q → q = p :=
-  symbol_production_interns_machine force (listExtWith_laws eqTag) (listExtWith_good eqTag) h0.1 sb
-    (stackDiscAlong_listExt eqTag force h0 p0 sb) hr hs hc hn
-
-end Marwood.Proofs.C18
-
-namespace Marwood.Proofs.C12
-open Marwood Marwood.Heap Marwood.Spec Marwood.Vm Marwood.Vm.Concrete Marwood.Lemmas.Sim Marwood.Lemmas.Good
-  Marwood.Proofs.C03 Marwood.Proofs.C18 Marwood.Lemmas.MachineGarbage Marwood.Lemmas.PolicyAlloc
-
-/-- **T12.1 at the real builtins**: in every reachable state, whenever `run_gc` collects, allocated = live -/
-theorem no_floating_garbage_listExt (eqTag : String → String → Bool) (force : Bool) {s0 : St CHeap}
-    (h0 : VmOk (listExtWith eqTag) (listExtWith_codeLawsV eqTag) s0) (p0 : PInv s0)
-    (sb : SizeBounded (machine (listExtWith eqTag) force) s0) (cp0 : CodePlain s0.heap)
-    {s : St CHeap} (hr : Reaches (machine (listExtWith eqTag) force) s0 s) {h' : Heap}
-    (hrun : Heap.runGc true force (toHeap s.heap) (rootsOf s) = .ok (.collected h')) (x : Nat) :
-    ((toHeap ((machine (listExtWith eqTag) force).gc s).heap).NonFree x ↔ Live (toHeap s.heap) (rootsOf s) x) ∧
-    ((toHeap ((machine (listExtWith eqTag) force).gc s).heap).NonFree x ↔
-      Live (toHeap ((machine (listExtWith eqTag) force).gc s).heap)
-        (rootsOf ((machine (listExtWith eqTag) force).gc s)) x) :=
-  no_floating_garbage_machine force (listExtWith_laws eqTag) (listExtWith_good eqTag) h0.1 sb
-    (stackDiscAlong_listExt eqTag force h0 p0 sb) (listExtWith_codePlain eqTag) cp0 hr hrun x
-
-/-- … and with the forcing hook the collection always happens -/
-theorem forced_gc_no_floating_garbage_listExt (eqTag : String → String → Bool) {s0 : St CHeap}
-    (h0 : VmOk (listExtWith eqTag) (listExtWith_codeLawsV eqTag) s0) (p0 : PInv s0)
-    (sb : SizeBounded (machine (listExtWith eqTag) true) s0) (cp0 : CodePlain s0.heap)
-    {s : St CHeap} (hr : Reaches (machine (listExtWith eqTag) true) s0 s) (x : Nat) :
-    ((toHeap (cgc true s).heap).NonFree x ↔ Live (toHeap s.heap) (rootsOf s) x) ∧
-    ((toHeap (cgc true s).heap).NonFree x ↔ Live (toHeap (cgc true s).heap) (rootsOf (cgc true s)) x) :=
-  forced_gc_no_floating_garbage_machine (listExtWith_laws eqTag) (listExtWith_good eqTag) h0.1 sb
-    (stackDiscAlong_listExt eqTag true h0 p0 sb) (listExtWith_codePlain eqTag) cp0 hr x
-
-/-- **the allocation bound of one slice at the real builtins** (parameter `A` of T12.3): between two collection
-    points at most `8192 · 3 + E` cells are allocated, `E` = what the builtins called in the slice allocate — and a
-    `cons` allocates at most 2 (`evalCons_allocs`; its pair cell is the `maybe_put` of `runBuiltin`, counted in the
-    opcode constant), `set-car!` / `set-cdr!` at most 1, every other builtin of the table 0 -/
-theorem slice_alloc_bound_listExt (eqTag : String → String → Bool) {n E : Nat} {s s' : St CHeap} (inv : HInv s.heap)
-    (sl : Slice (listExtWith eqTag) n E s s') (hn : n ≤ 8192) :
-    HInv s'.heap ∧ used s'.heap ≤ used s.heap + (8192 * maxOpAlloc + E) ∧
-      ∃ j, j ≤ 8192 * maxOpAlloc + E ∧ Allocs s.heap s'.heap j :=
-  slice_alloc_bound (listExtWith_allocOnly eqTag) inv sl hn
-
-end Marwood.Proofs.C12
